@@ -24,8 +24,28 @@ from ..core import InfraError, shrink
 
 NAMES = ["a", "b"]
 EAGER_KINDS = ("rows", "dicts", "tuple-schema", "relation")
-LAZY_KINDS = ("gen", "iter", "arrow", "select", "filter", "take")
+ONESHOT_KINDS = ("gen", "iter", "map", "chain")     # rows= an iterator: the backing object *is* the cursor
+LAZY_KINDS = ONESHOT_KINDS + ("arrow", "select", "filter", "take")
 ARROW_HOW = ("list", "tuple", "gen", "single")
+# rows= accepts "an iterable of tuples": the containers that can be iterated again are materialised frames whose
+# `_rows` is not (yet) a list — the cursor is a separate iterator over them
+CONTAINERS = ("list", "tuple", "deque", "reiter")
+DICT_CONTAINERS = ("list", "tuple", "gen", "iter")  # dictionaries= is consumed at construction whatever it is
+MAIN = "main"
+DERIVE_EAGER = ("slice", "head", "tail", "query", "distinct", "add", "batch")
+DERIVE_LAZY = ("select", "filter", "take")
+BAD_APPENDS = ("scalar", "unsizable", "invalid")
+FETCHES = ("fetchone", "fetchmany", "fetchall")
+
+
+class ReIter:
+    """A re-iterable container that is neither a list nor sized (and is truthy when empty)."""
+
+    def __init__(self, rows):
+        self.rows = rows
+
+    def __iter__(self):
+        return iter(self.rows)
 
 # ----------------------------------------------------------------------------- observers
 
@@ -128,7 +148,9 @@ def _recipes():
 def _polars(df):
     # to_polars reads `row.as_dict`: it only works on frames whose rows are Row objects (dictionary-built
     # or appended); on plain tuples it raises whatever the cursor has done — not this property's business
-    if all(hasattr(r, "as_dict") for r in (df._rows if isinstance(df._rows, list) else [])):
+    from collections import deque
+
+    if isinstance(df._rows, (list, tuple, deque, ReIter)) and all(hasattr(r, "as_dict") for r in df._rows):
         return df.polars().shape
     return None
 
@@ -137,7 +159,14 @@ class Observers:
     def __init__(self):
         from orso import DataFrame
 
+        from ..extractors.c04_footprint import PURE_MEMBERS
+
         self.recipes = _recipes()
+        # the recipes a lazily backed frame is shown to are exactly those over the members that
+        # C04.schema_observers_do_not_read_rows is about (`arraysize` is a slot, not code)
+        for r in self.recipes:
+            if r[2] == "pure" and r[1] not in PURE_MEMBERS + ("arraysize",):
+                raise InfraError("recipe %r is marked schema-only but %r is not in the extractor's PURE_MEMBERS" % (r[0], r[1]))
         self.legacy = [r[0] for r in self.recipes[:33]]
         self.by_label = {r[0]: r for r in self.recipes}
         covered = {r[1] for r in self.recipes}
@@ -161,6 +190,26 @@ class Observers:
             self.auto.append(name)
         self.eager_labels = [r[0] for r in self.recipes]
         self.pure_labels = [r[0] for r in self.recipes if r[2] == "pure"]
+        # frames without columns: a recipe is used on them only if it works on a scratch frame of that shape whose
+        # cursor was never touched (whether rendering / converting copes with no columns is other properties' business)
+        self.width0_labels = [r[0] for r in self.recipes if self._works_without_columns(DataFrame, r[3])]
+
+    @staticmethod
+    def _works_without_columns(DataFrame, fn):
+        from orso.schema import RelationSchema
+
+        makers = (lambda rows: DataFrame(rows=list(rows), schema=[]), lambda rows: DataFrame(rows=tuple(rows), schema=[]),
+                  lambda rows: DataFrame([{} for _ in rows]) if rows else None,
+                  lambda rows: DataFrame(rows=list(rows), schema=RelationSchema(name="t", columns=[])))
+        for make in makers:
+            for rows in ([(), (), ()], []):
+                try:
+                    df = make(rows)
+                    if df is not None:
+                        fn(df)
+                except Exception:
+                    return False
+        return True
 
     @staticmethod
     def _auto(DataFrame, name):
@@ -239,7 +288,7 @@ def layout(case):
     k = src["kind"]
     if "_twin" in case:  # see reference_rows
         return case["_twin"], [[r] for r in case["_twin"]], None
-    if k in EAGER_KINDS or k in ("gen", "iter"):
+    if k in EAGER_KINDS or k in ONESHOT_KINDS:
         rows = [list(r) for r in src["rows"]]
         return rows, [rows], None
     if k == "arrow":
@@ -275,6 +324,32 @@ def _arrow_table(rows, width):
     return t
 
 
+def _container(rows, how):
+    from collections import deque
+
+    if how == "list":
+        return list(rows)
+    if how == "tuple":
+        return tuple(rows)
+    if how == "deque":
+        return deque(rows)
+    if how == "reiter":
+        return ReIter(list(rows))
+    raise InfraError("bad container %r" % (how,))
+
+
+def _oneshot(rows, how):
+    if how == "gen":
+        return (r for r in rows)
+    if how == "iter":
+        return iter(list(rows))
+    if how == "map":
+        return map(tuple, [list(r) for r in rows])
+    if how == "chain":
+        return itertools.chain(rows[: len(rows) // 2], (r for r in rows[len(rows) // 2:]))
+    raise InfraError("bad iterator kind %r" % (how,))
+
+
 def build(case):
     """The frame under test."""
     from orso import DataFrame
@@ -283,22 +358,22 @@ def build(case):
     k = src["kind"]
     names = NAMES[:w]
     rows = [tuple(r) for r in src.get("rows", [])]
+    cont = src.get("container", "list")
     if k == "rows":
-        return DataFrame(rows=list(rows), schema=list(names))
+        return DataFrame(rows=_container(rows, cont), schema=list(names))
     if k == "dicts":
-        return DataFrame([dict(zip(names, r)) for r in rows])  # the running byte total is not kept yet
+        ds = [dict(zip(names, r)) for r in rows]  # the running byte total is not kept yet
+        return DataFrame({"list": list, "tuple": tuple, "gen": lambda x: (d for d in x), "iter": iter}[cont](ds))
     if k == "tuple-schema":
-        return DataFrame(rows=list(rows), schema=tuple(names))
+        return DataFrame(rows=_container(rows, cont), schema=tuple(names))
     if k == "relation":
         from orso.schema import FlatColumn, RelationSchema
         from orso.types import OrsoTypes
 
         sch = RelationSchema(name="t", columns=[FlatColumn(name=n, type=OrsoTypes.INTEGER) for n in names])
-        return DataFrame(rows=list(rows), schema=sch)
-    if k == "gen":
-        return DataFrame(rows=(r for r in rows), schema=list(names))
-    if k == "iter":
-        return DataFrame(rows=iter(list(rows)), schema=list(names))
+        return DataFrame(rows=_container(rows, cont), schema=sch)
+    if k in ONESHOT_KINDS:
+        return DataFrame(rows=_oneshot(rows, k), schema=list(names))
     if k == "arrow":
         tabs = [_arrow_table(t, w) for t in src["tables"]]
         how = src.get("how", "list")
@@ -332,10 +407,20 @@ def reference_rows(ctx, case):
         twin = [_row(r) for r in build(case)]
     except Exception:
         return case
-    if twin != layout(case)[0]:
+    if not _same(twin, layout(case)[0]):
         ctx.hit("derived-frame:rows-differ-from-harness-expectation")
         return dict(case, _twin=twin)
     return case
+
+
+def _same(a, b):
+    """Equality of rows / outputs as values of the wire universe: NaN is NaN, -0.0 is not 0.0, True is not 1.
+    Everything compared here is made of lists, dicts and scalars, for which `repr` is exactly that (and runs in C;
+    `wire.same` is the definition, used when the texts differ in length only by accident of tuple vs list)."""
+    if a is b:
+        return True
+    ra, rb = repr(a), repr(b)
+    return ra == rb or (len(ra) == len(rb) and ("(" in ra or "(" in rb) and wire.same(a, b))
 
 
 def _py(v):
@@ -346,132 +431,456 @@ def _row(r):
     return [_py(v) for v in r]
 
 
+# ----------------------------------------------------------------------------- several frames
+
+
+def target(op):
+    """(register, operation) of a history entry; a bare operation is on the frame under test."""
+    if op[0] == "on":
+        return op[1], op[2]
+    if op[0] == "derive":
+        return op[2], op
+    return MAIN, op
+
+
+def derive_rows(rows, how, args, others, width):
+    """The rows a derivation selects from `rows`, by the documented semantics (the reference when the frame the
+    implementation hands out cannot be read without consuming it)."""
+    n = len(rows)
+
+    def sl(off, ln):
+        if off < 0:
+            off = max(n + off, 0)
+        if ln is None:
+            return rows[off:]
+        if ln == 0:
+            return []
+        return rows[off: off + ln]
+
+    if how == "slice":
+        return sl(args[0] if len(args) > 0 else 0, args[1] if len(args) > 1 else None)
+    if how == "head":
+        return sl(0, args[0] if args else 5)
+    if how == "tail":
+        size = args[0] if args else 5
+        return sl(0 - size, size)
+    if how == "query":
+        return list(rows) if args[0] == "all" else []
+    if how == "distinct":
+        seen, out = [], []
+        for r in rows:
+            t = tuple(r)
+            if t not in seen:
+                seen.append(t)
+                out.append(r)
+        return out
+    if how == "add":
+        return rows + others[args[0]]
+    if how == "batch":
+        bs = [rows[i: i + args[0]] for i in range(0, n, args[0])]
+        return [] if not bs else (bs[0] if args[1] == "first" else bs[-1])
+    if how == "select":
+        names = NAMES[:width]
+        idx = [names.index(c) for c in args[0] if c in names]
+        return [[r[i] for i in idx] for r in rows]
+    if how == "filter":
+        return [r for r, m in zip(rows, args[0]) if m]
+    if how == "take":
+        return [r for i, r in enumerate(rows) if i in args[0]]
+    raise InfraError("bad derivation %r" % (how,))
+
+
+def _do_derive(df, how, args, frames):
+    if how == "slice":
+        return df.slice(*args)
+    if how == "head":
+        return df.head(*args)
+    if how == "tail":
+        return df.tail(*args)
+    if how == "query":
+        return df.query((lambda r: True) if args[0] == "all" else (lambda r: False))
+    if how == "distinct":
+        return df.distinct()
+    if how == "add":
+        return df + frames[args[0]]
+    if how == "batch":
+        bs = list(df.to_batches(args[0]))
+        if not bs:
+            return df.slice(0, 0)  # a frame of no rows has no batches
+        return bs[0] if args[1] == "first" else bs[-1]
+    if how == "select":
+        return df.select(list(args[0]))
+    if how == "filter":
+        return df.filter(list(args[0]))
+    if how == "take":
+        return df.take(list(args[0]))
+    raise InfraError("bad derivation %r" % (how,))
+
+
+def _bad_entry(kind, width, rel):
+    names = NAMES[:width]
+    if kind == "scalar":
+        return 5
+    if kind == "unsizable":  # an integer beyond 64 bits cannot be sized (Row.nbytes raises)
+        vals = [2 ** 70] + [0] * (width - 1)
+        return dict(zip(names, vals)) if rel else tuple(vals)
+    if kind == "invalid":   # not an INTEGER
+        return dict(zip(names, ["x"] + [0] * (width - 1)))
+    raise InfraError("bad append kind %r" % (kind,))
+
+
+def _stored(df):
+    from collections import deque
+
+    if isinstance(df._rows, (list, tuple, deque, ReIter)):
+        return [_row(r) for r in df._rows]
+    return None
+
+
+def _raises_anyway(df, fn, e):
+    """Does the observer raise the same on a new frame over the same rows, one whose cursor nobody touched?"""
+    from orso import DataFrame
+
+    rows = _stored_raw(df)
+    if rows is None:
+        return False
+    try:
+        fn(DataFrame(rows=list(rows), schema=df._schema))
+    except Exception as e2:
+        return type(e2) is type(e)
+    return False
+
+
+def _stored_raw(df):
+    from collections import deque
+
+    return list(df._rows) if isinstance(df._rows, (list, tuple, deque, ReIter)) else None
+
+
+def _exotic(case):
+    src = case["src"]
+    return case["width"] == 0 or src.get("container", "list") != "list" or src["kind"] in ("map", "chain")
+
+
 def run_impl(case):
-    """Run a history on the real DataFrame. Returns (outs, final rows of a materialised frame or None)."""
+    """Run a history on the real DataFrame(s).  Returns (outs, {register: its rows at the end, or None})."""
     obs = observers()
-    df = build(case)
+    try:
+        frames = {MAIN: build(case)}
+    except Exception as e:
+        if not _exotic(case):
+            raise
+        # a constructor that turns down an unusual-but-legal shape (rows without columns, rows held in a deque, …)
+        # is not this property's business: the history is not run
+        return [["unbuildable", type(e).__name__]], {}
+    lazy = {MAIN: is_lazy(case)}
     rel = case["src"]["kind"] == "relation"
-    names = NAMES[: case["width"]]
+    w = case["width"]
+    names = NAMES[:w]
     outs = []
     for op in case["ops"]:
-        k = op[0]
+        reg, bop = target(op)
+        k = bop[0]
+        df = frames.get(reg)
+        if df is None:  # a register whose derivation raised: reported there
+            outs.append(["skipped"])
+            continue
         try:
             if k == "fetchone":
                 r = df.fetchone()
                 outs.append(["one", None if r is None else _row(r)])
             elif k == "fetchmany":
-                rs = df.fetchmany() if op[1] is None else df.fetchmany(op[1])
+                rs = df.fetchmany() if bop[1] is None else df.fetchmany(bop[1])
                 outs.append(["many", [_row(r) for r in rs]])
             elif k == "fetchall":
                 outs.append(["many", [_row(r) for r in df.fetchall()]])
             elif k == "arraysize":
-                df.arraysize = op[1]
+                df.arraysize = bop[1]
                 outs.append(["unit"])
             elif k == "observe":
-                obs.get(op[1])[3](df)
+                obs.get(bop[1])[3](df)
                 outs.append(["unit"])
             elif k == "append":
-                df.append(dict(zip(names, op[1])) if rel else tuple(op[1]))
+                df.append(dict(zip(names, bop[1])) if rel else tuple(bop[1]))
                 outs.append(["unit"])
+            elif k == "append-bad":
+                df.append(_bad_entry(bop[1], w, rel))
+                outs.append(["unit"])
+            elif k == "derive":
+                name, how, args = bop[1], bop[3], bop[4:]
+                child = _do_derive(df, how, args, frames)
+                if how in DERIVE_LAZY:
+                    # what the view holds is read from a twin (reading the view itself would consume it)
+                    snap = [_row(r) for r in _do_derive(df, how, args, frames)]
+                else:
+                    snap = [_row(r) for r in child._rows] if isinstance(child._rows, list) else None
+                frames[name] = child
+                lazy[name] = how in DERIVE_LAZY
+                outs.append(["derived", snap])
             else:
                 raise InfraError("bad op " + repr(op))
         except InfraError:
             raise
         except Exception as e:  # the fetch calls refuse after an append
-            if k in ("fetchone", "fetchmany", "fetchall"):
+            if k in FETCHES:
                 outs.append(["err"])
+            elif k == "observe" and not lazy[reg] and _raises_anyway(df, obs.get(bop[1])[3], e):
+                # the observer cannot cope with these values whatever the cursor did (a column of mixed types to
+                # Arrow, None to max()): other properties' business; the history goes on
+                outs.append(["raised-anyway", type(e).__name__, obs.get(bop[1])[0]])
             else:
-                outs.append(["raised", type(e).__name__, k if k != "observe" else obs.get(op[1])[0]])
-    final_rows = None
-    if not is_lazy(case):
-        final_rows = [_row(r) for r in df._rows] if isinstance(df._rows, list) else None
-    return outs, final_rows
+                if k == "derive":
+                    frames[bop[1]] = None
+                outs.append(["raised", type(e).__name__, {"observe": lambda: obs.get(bop[1])[0], "derive": lambda: "derive:" + bop[3]}.get(k, lambda: k)()])
+    finals = {}
+    for name, df in frames.items():
+        finals[name] = None if (df is None or lazy[name]) else _stored(df)
+    return outs, finals
 
 
-def model_line(case):
-    obs = observers()
-    ops = []
-    for op in case["ops"]:
-        if op[0] == "observe":
-            ops.append(["observe", obs.get(op[1])[2]])
+class Reg:
+    """What the property says about one frame of a history."""
+
+    def __init__(self, name, rows, lazy, idx, how=None, parent=None):
+        self.name, self.rows, self.lazy, self.idx, self.how, self.parent = name, rows, lazy, idx, how, parent
+        self.differs = False
+        self.delivered = []
+        self.arraysize = 100
+        self.appended = False
+        self.extra = []
+        self.unknown_rows = False   # an append whose stored row this harness cannot predict went through
+        self.failed_append = False  # an append raised: no row was appended, a refusal afterwards is tolerated
+        self.loose = False          # …and happened: the model (which does not refuse) is not compared any more
+        self.frozen = False         # a lazy view whose parent was appended to: what it holds is not defined
+
+    def current(self):
+        return self.rows + self.extra
+
+
+def judge(case, outs, finals):
+    """The property, evaluated directly on the implementation's outputs.
+    Returns (clause or None, registers in order of creation)."""
+    main = Reg(MAIN, layout(case)[0], is_lazy(case), 0)
+    main.arraysize = case.get("arraysize0", 100)
+    regs = {MAIN: main}
+    order = [main]
+    many = any(op[0] == "derive" for op in case["ops"])
+
+    def say(text, st):
+        if not many:
+            return text
+        return text + (" [the frame others were derived from]" if st.name == MAIN else " [a derived frame]")
+
+    clause = None
+    if outs and outs[0][0] == "unbuildable":
+        main.loose = True
+        return None, order
+    for op, out in zip(case["ops"], outs):
+        reg, bop = target(op)
+        k = bop[0]
+        st = regs.get(reg)
+        if st is None or out[0] == "skipped":
+            continue
+        if out[0] == "raised-anyway":
+            continue
+        if out[0] == "raised" and k != "append-bad":
+            clause = clause or say("operation %s raised %s" % (out[2], out[1]), st)
+            if k == "derive":
+                regs[bop[1]] = None
+            continue
+        if k == "arraysize":
+            st.arraysize = bop[1]
+        elif k == "append":
+            st.appended = True
+            st.extra.append(list(bop[1]))
+        elif k == "append-bad":
+            if out[0] == "raised":
+                st.failed_append = True
+            else:  # this tree accepts the entry: an append like any other, of a row this harness does not predict
+                st.appended = True
+                st.unknown_rows = True
+        elif k == "derive":
+            name, how, args = bop[1], bop[3], bop[4:]
+            others = {n: r.current() for n, r in regs.items() if r is not None}
+            want = derive_rows(st.current(), how, args, others, case["width"])
+            snap = out[1]
+            child = Reg(name, want if snap is None else snap, how in DERIVE_LAZY, len(order), how, st.name)
+            child.differs = snap is not None and not _same(snap, want)
+            regs[name] = child
+            order.append(child)
+        if k in ("append", "append-bad"):
+            for c in order:  # a lazy view reads its parent's list when it is read: not defined after a change
+                if c.lazy and c.parent == st.name:
+                    c.frozen = True
+        if k not in FETCHES or clause is not None:
+            continue
+        remaining = len(st.rows) - len(st.delivered)
+        if st.appended:
+            if out[0] != "err":
+                clause = say("fetch after append did not refuse", st)
+            continue
+        if out[0] == "err":
+            if st.failed_append:
+                st.appended = True
+                st.loose = True
+                continue
+            clause = say("fetch raised without an append", st)
+            continue
+        if k == "fetchone":
+            if remaining == 0 and out[1] is not None:
+                clause = say("fetchone after exhaustion is not None", st)
+            elif remaining > 0 and out[1] is None:
+                clause = say("fetchone returned None with rows remaining", st)
+            elif out[1] is not None:
+                st.delivered.append(out[1])
+        elif k == "fetchmany":
+            want = min(st.arraysize if bop[1] is None else bop[1], remaining)
+            if len(out[1]) != want:
+                clause = say("fetchmany returned %d rows, min(k, remaining) is %d" % (len(out[1]), want), st)
+            st.delivered.extend(out[1])
         else:
-            ops.append(list(op))
+            if len(out[1]) != remaining:
+                clause = say("fetchall returned %d rows with %d remaining" % (len(out[1]), remaining), st)
+            st.delivered.extend(out[1])
+        if clause is None and not _same(st.delivered, st.rows[: len(st.delivered)]):
+            clause = say("delivered rows are not a prefix of the frame", st)
+    if clause is None:
+        for st in order:
+            fr = finals.get(st.name)
+            if fr is not None and not st.unknown_rows and not _same(fr, st.current()):
+                clause = say("frame rows changed other than by append", st)
+                break
+    return clause, order
+
+
+def oracle(case, outs, finals):
+    return judge(case, outs, finals)[0]
+
+
+def _model_op(bop):
+    if bop[0] == "observe":
+        return ["observe", observers().get(bop[1])[2]]
+    if bop[0] == "append-bad":
+        return ["observe", "rows"]  # no row is appended: for the frame it is a look at the rows
+    return list(bop)
+
+
+def _model_frame(case):
     rows, tables, size = layout(case)
     k = case["src"]["kind"]
     if is_lazy(case):
-        frame = ["lazy", tables, size, k == "arrow"]
-    else:
-        frame = ["eager", rows, k == "dicts", k == "relation"]
-    return "C04 frame " + wire.line(case.get("arraysize0", 100), frame, ops)
+        return ["lazy", tables, size, k == "arrow"]
+    return ["eager", rows, k == "dicts", k == "relation"]
 
 
-def oracle(case, outs, final_rows):
-    """The property, evaluated directly on the implementation's outputs. Returns clause or None."""
-    rows = layout(case)[0]
-    delivered = []
-    arraysize = case.get("arraysize0", 100)
-    appended = False
-    extra = []
-    for op, out in zip(case["ops"], outs):
-        k = op[0]
-        if out[0] == "raised":
-            return "operation %s raised %s" % (out[2], out[1])
-        if k == "arraysize":
-            arraysize = op[1]
-        if k == "append":
-            appended = True
-            extra.append(list(op[1]))
-        remaining = len(rows) - len(delivered)
-        if k in ("fetchone", "fetchmany", "fetchall"):
-            if appended:
-                if out[0] != "err":
-                    return "fetch after append did not refuse"
-                continue
-            if out[0] == "err":
-                return "fetch raised without an append"
-            if k == "fetchone":
-                if remaining == 0 and out[1] is not None:
-                    return "fetchone after exhaustion is not None"
-                if remaining > 0 and out[1] is None:
-                    return "fetchone returned None with rows remaining"
-                if out[1] is not None:
-                    delivered.append(out[1])
-            elif k == "fetchmany":
-                want = min(arraysize if op[1] is None else op[1], remaining)
-                if len(out[1]) != want:
-                    return "fetchmany returned %d rows, min(k, remaining) is %d" % (len(out[1]), want)
-                delivered.extend(out[1])
+def has_registers(case):
+    return any(op[0] in ("derive", "on") for op in case["ops"])
+
+
+def model_line(case, order=None):
+    d = case.get("arraysize0", 100)
+    if not has_registers(case):
+        return "C04 frame " + wire.line(d, _model_frame(case), [_model_op(op) for op in case["ops"]])
+    idx = {r.name: r.idx for r in order}
+    rows_of = {r.name: r.rows for r in order}
+    ops = []
+    for op in case["ops"]:
+        reg, bop = target(op)
+        if reg not in idx:
+            raise InfraError("operation on an unknown frame in %r" % (case,))
+        if bop[0] == "derive":
+            name, how = bop[1], bop[3]
+            if name not in idx:
+                raise InfraError("derivation without a frame in %r" % (case,))
+            if how in DERIVE_LAZY:
+                ops.append(["derive-lazy", idx[reg], [[r] for r in rows_of[name]]])
             else:
-                if len(out[1]) != remaining:
-                    return "fetchall returned %d rows with %d remaining" % (len(out[1]), remaining)
-                delivered.extend(out[1])
-            if delivered != rows[: len(delivered)]:
-                return "delivered rows are not a prefix of the frame"
-    if final_rows is not None and final_rows != rows + extra:
-        return "frame rows changed other than by append"
-    return None
+                ops.append(["derive", idx[reg], "batches" if how == "batch" else how, rows_of[name]])
+        else:
+            ops.append(["on", idx[reg], _model_op(bop)])
+    return "C04 system " + wire.line(d, _model_frame(case), ops)
 
 
 def _norm(clause):
-    return None if clause is None else "".join(ch for ch in clause if not ch.isdigit())
+    """The kind of a failure: the clause without its numbers and without which frame of the history it is about
+    (one minimal replay per kind; the shrinker may move the failure to the simplest frame that shows it)."""
+    return None if clause is None else "".join(ch for ch in clause.split(" [")[0] if not ch.isdigit())
 
 
 def _rows_ok(rows, w):
     return isinstance(rows, list) and all(isinstance(r, list) and len(r) == w for r in rows)
 
 
+def _int(v, lo=None):
+    return isinstance(v, int) and not isinstance(v, bool) and (lo is None or v >= lo)
+
+
+def _valid_derive(bop, regs, w):
+    if len(bop) < 4 or not isinstance(bop[1], str) or not bop[1] or bop[1] in regs:
+        return False
+    how, args = bop[3], bop[4:]
+    if how == "slice":
+        return len(args) <= 2 and (len(args) < 1 or _int(args[0])) and (len(args) < 2 or args[1] is None or _int(args[1], 0))
+    if how in ("head", "tail"):
+        return len(args) <= 1 and all(_int(a, 0) for a in args)
+    if how == "query":
+        return len(args) == 1 and args[0] in ("all", "none")
+    if how == "distinct":
+        return not args
+    if how == "add":
+        return len(args) == 1 and args[0] in regs and not regs[args[0]]["lazy"]
+    if how == "batch":
+        return len(args) == 2 and _int(args[0], 1) and args[1] in ("first", "last")
+    if how == "select":
+        return len(args) == 1 and isinstance(args[0], list) and all(isinstance(c, str) for c in args[0]) and len(set(args[0])) == len(args[0])
+    if how == "filter":
+        return len(args) == 1 and isinstance(args[0], list) and all(isinstance(m, bool) for m in args[0])
+    if how == "take":
+        return len(args) == 1 and isinstance(args[0], list) and all(_int(m) for m in args[0])
+    return False
+
+
+def _valid_base(bop, lazy, w, rel):
+    obs = observers()
+    if not isinstance(bop, list) or not bop:
+        return False
+    k = bop[0]
+    if k == "append":
+        return not lazy and len(bop) == 2 and isinstance(bop[1], list) and len(bop[1]) == w
+    if k == "append-bad":
+        return (not lazy and len(bop) == 2 and bop[1] in BAD_APPENDS and (bop[1] == "scalar" or w >= 1)
+                and (bop[1] != "invalid" or rel))
+    if k in ("fetchmany", "arraysize", "observe") and len(bop) != 2:
+        return False
+    if k == "arraysize":
+        return _int(bop[1], 0)
+    if k == "fetchmany":
+        return bop[1] is None or _int(bop[1], 0)
+    if k == "observe":
+        if _int(bop[1]):
+            return not lazy and w >= 1
+        if not isinstance(bop[1], str) or bop[1] not in obs.by_label or (lazy and obs.by_label[bop[1]][2] != "pure"):
+            return False
+        return w >= 1 or bop[1] in obs.width0_labels
+    if k in ("fetchone", "fetchall"):
+        return len(bop) == 1
+    return False
+
+
 def valid_case(c):
     w = c.get("width")
     src = c.get("src")
-    if w not in (1, 2) or not isinstance(c.get("ops"), list) or not c["ops"] or not isinstance(src, dict):
+    if w not in (0, 1, 2) or isinstance(w, bool) or not isinstance(c.get("ops"), list) or not c["ops"] or not isinstance(src, dict):
         return False
     k = src.get("kind")
-    if k in EAGER_KINDS or k in ("gen", "iter"):
+    if k in EAGER_KINDS or k in ONESHOT_KINDS:
         if not _rows_ok(src.get("rows"), w) or (k == "dicts" and not src["rows"]):
+            return False
+        if k in EAGER_KINDS and src.get("container", "list") not in (DICT_CONTAINERS if k == "dicts" else CONTAINERS):
             return False
     elif k == "arrow":
         ts = src.get("tables")
-        if not isinstance(ts, list) or not ts or not all(_rows_ok(t, w) for t in ts):
+        if w < 1 or not isinstance(ts, list) or not ts or not all(_rows_ok(t, w) for t in ts):
             return False
         if any(not isinstance(v, int) or isinstance(v, bool) for t in ts for r in t for v in r):
             return False
@@ -483,7 +892,7 @@ def valid_case(c):
         if not _rows_ok(src.get("rows"), w) or src.get("parent", "rows") not in ("rows", "gen"):
             return False
         if k == "select" and (not isinstance(src.get("columns"), list) or not src["columns"]
-                              or any(x not in NAMES[:w] for x in src["columns"]) or len(set(src["columns"])) != len(src["columns"])):
+                              or any(not isinstance(x, str) for x in src["columns"]) or len(set(src["columns"])) != len(src["columns"])):
             return False
         if k == "filter" and (not isinstance(src.get("mask"), list) or any(not isinstance(m, bool) for m in src["mask"])):
             return False
@@ -491,40 +900,45 @@ def valid_case(c):
             return False
     else:
         return False
-    lazy = k in LAZY_KINDS
-    obs = observers()
+    rel = k == "relation"
+    regs = {MAIN: {"lazy": k in LAZY_KINDS, "parent": None, "frozen": False}}
     for op in c["ops"]:
         if not isinstance(op, list) or not op:
             return False
-        if op[0] == "append" and (lazy or len(op) != 2 or not isinstance(op[1], list) or len(op[1]) != w):
-            return False
-        if op[0] in ("fetchmany", "arraysize", "observe") and len(op) != 2:
-            return False
-        if op[0] == "arraysize" and (not isinstance(op[1], int) or op[1] < 0):
-            return False
-        if op[0] == "fetchmany" and op[1] is not None and (not isinstance(op[1], int) or isinstance(op[1], bool) or op[1] < 0):
-            return False
-        if op[0] == "observe":
-            if isinstance(op[1], int) and not isinstance(op[1], bool):
-                if lazy:
-                    return False
-            elif op[1] not in obs.by_label or (lazy and obs.by_label[op[1]][2] != "pure"):
+        if op[0] == "on":
+            if len(op) != 3 or not isinstance(op[1], str) or op[1] not in regs or not isinstance(op[2], list) or not op[2] or op[2][0] in ("on", "derive"):
                 return False
-        if op[0] in ("fetchone", "fetchall") and len(op) != 1:
+        reg, bop = target(op)
+        if op[0] == "derive":
+            if len(op) < 4 or not isinstance(reg, str) or reg not in regs or regs[reg]["lazy"] or not _valid_derive(bop, regs, w):
+                return False
+            regs[bop[1]] = {"lazy": bop[3] in DERIVE_LAZY, "parent": reg, "frozen": False}
+            continue
+        st = regs[reg]
+        if st["frozen"]:
             return False
-        if op[0] not in ("fetchone", "fetchall", "fetchmany", "arraysize", "observe", "append"):
+        # a frame derived by select has its own schema: a list of names, whatever the parent had
+        if not _valid_base(bop, st["lazy"], w, rel):
             return False
+        if bop[0] in ("append", "append-bad"):
+            for r in regs.values():
+                if r["lazy"] and r["parent"] == reg:
+                    r["frozen"] = True
     return True
 
 
-def _features(ctx, c):
+def _features(ctx, c, order, outs=()):
     src = c["src"]
     k = src["kind"]
-    ctx.hit("src:" + k + (":" + src.get("how", "list") if k == "arrow" else "") + (":parent-" + src.get("parent", "rows") if k in ("select", "filter", "take") else ""))
+    ctx.hit("src:" + k + (":" + src.get("how", "list") if k == "arrow" else "") + (":parent-" + src.get("parent", "rows") if k in ("select", "filter", "take") else "")
+            + (":" + src["container"] if src.get("container", "list") != "list" else ""))
     rows, tables, size = layout(c)
+    ctx.hit("width:%d" % c["width"])
+    if rows and any(not r or not any(r) for r in rows):
+        ctx.hit("rows:some-falsy" if any(r and any(r) for r in rows) else "rows:all-falsy")
     ctx.hit("rows:%s" % (len(rows) if len(rows) < 9 else ("9-98" if len(rows) < 99 else ("99-101" if len(rows) <= 101 else ("102-9998" if len(rows) < 9999 else "9999+")))))
     ctx.hit("lazy" if is_lazy(c) else "eager")
-    if is_lazy(c) and k not in ("gen", "iter"):
+    if is_lazy(c) and k not in ONESHOT_KINDS:
         sizes = [len(t) for t in tables]
         if sizes and sizes[0] == 0:
             ctx.hit("chunks:empty-first")
@@ -539,12 +953,51 @@ def _features(ctx, c):
         ctx.hit("chunks:n=%s" % (len(sizes) if len(sizes) < 6 else "6+"))
         if size is not None:
             ctx.hit("arrow:max_size" + ("<rows" if size < sum(sizes) else "=rows" if size == sum(sizes) else ">rows"))
+    if k == "select" and any(x not in NAMES[: c["width"]] for x in src["columns"]):
+        ctx.hit("select:unknown-column")
+    if len(order) > 1:
+        ctx.hit("frames:%s" % (len(order) if len(order) < 4 else "4+"))
+        for r in order[1:]:
+            par = next(o for o in order if o.name == r.parent)
+            shape = "empty" if not r.rows else ("whole" if _same(r.rows, par.rows + par.extra) else "part")
+            ctx.hit("derive:%s:%s" % (r.how, shape))
+            if r.differs:
+                ctx.hit("derived-frame:rows-differ-from-harness-expectation")
+        # the order of events the aliasing class needs: an append on one side, then a fetch on the other
+        appended = set()
+        for op in c["ops"]:
+            reg, bop = target(op)
+            if bop[0] == "append":
+                appended.add(reg)
+            elif bop[0] in FETCHES and appended - {reg}:
+                ctx.hit("frames:fetch-after-append-on-another-frame")
+                break
+    if outs and outs[0][0] == "unbuildable":
+        ctx.hit("frame-cannot-be-built:%s:%s" % (k, outs[0][1]))
+    for o in outs:
+        if o[0] == "raised-anyway":
+            ctx.hit("observer-raises-on-these-values-whatever-the-cursor-did:" + o[2])
     for op in c["ops"]:
-        ctx.hit("op:" + op[0])
-        if op[0] == "observe":
-            ctx.hit("obs:" + observers().get(op[1])[0])
-        if op[0] == "fetchmany":
-            ctx.hit("fetchmany:" + ("omitted" if op[1] is None else "0" if op[1] == 0 else "k"))
+        reg, bop = target(op)
+        ctx.hit("op:" + bop[0] + ("" if reg == MAIN else ":on-derived"))
+        if bop[0] == "observe":
+            ctx.hit("obs:" + observers().get(bop[1])[0])
+        if bop[0] == "append-bad":
+            ctx.hit("append-bad:" + bop[1])
+        if bop[0] == "fetchmany":
+            ctx.hit("fetchmany:" + ("omitted" if bop[1] is None else "0" if bop[1] == 0 else "k" if bop[1] < 2 ** 31 else "k>=2^31"))
+
+
+def _comparable(case, outs):
+    """The implementation's outputs as the model states them: a derivation, an observer that cannot cope with the
+    values, an append that raised (nothing was appended) are all `unit` for the frame."""
+    out = []
+    for op, o in zip(case["ops"], outs):
+        if o[0] in ("derived", "raised-anyway") or (o[0] == "raised" and target(op)[1][0] == "append-bad"):
+            out.append(["unit"])
+        else:
+            out.append(o)
+    return out
 
 
 def evaluate(ctx, cases):
@@ -553,23 +1006,40 @@ def evaluate(ctx, cases):
         if not valid_case(c):
             raise InfraError("generator produced an invalid case: %r" % (c,))
     cases = [reference_rows(ctx, c) for c in cases]
-    lines = [model_line(c) for c in cases]
-    mouts = ctx.model.batch(lines)
-    for c, mo in zip(cases, mouts):
-        outs, final_rows = run_impl(c)
+    ran = []
+    for c in cases:
+        outs, finals = run_impl(c)
+        clause, order = judge(c, outs, finals)
+        ran.append((outs, finals, clause, order))
+    unbuilt = [bool(r[0]) and r[0][0][0] == "unbuildable" for r in ran]
+    mouts = ctx.model.batch([model_line(dict(c, ops=[["fetchone"]]) if u else c, r[3]) for c, r, u in zip(cases, ran, unbuilt)])
+    for c, (outs, finals, clause, order), mo, u in zip(cases, ran, mouts, unbuilt):
         rows = layout(c)[0]
+        if u:
+            ctx.case(c, False)
+            _features(ctx, c, order, outs)
+            continue
         nontrivial = len(c["ops"]) >= 2 and len(rows) >= 1
         ctx.case(c, nontrivial)
-        _features(ctx, c)
-        clause = oracle(c, outs, final_rows)
+        _features(ctx, c, order, outs)
         if not mo.startswith("ok "):
             raise InfraError("model rejected case %r: %r" % (c, mo))
         m = wire.dec_all(mo[3:])
-        # m = [code machine outs, its store, live, spec machine outs, spec rows, frame rows]
-        if m[5] != rows:
-            raise InfraError("the model and the harness disagree about the rows of the frame: %r" % (c,))
-        if m[0] != m[3]:
-            ctx.hit("model:code-machine-differs-from-spec-machine")
+        if has_registers(c):
+            # m = [outs, stores of the frames, their liveness, every derivation owns its rows]
+            mouts_, mstores, strict = m[0], m[1], m[3]
+            if not strict:
+                ctx.hit("model:a-derived-frame-shares-its-rows (source)")
+            iouts = _comparable(c, outs)
+            istores = [finals.get(r.name) for r in order]
+            differs = not _same(mouts_, iouts) or any(a is not None and not _same(a, b) for a, b in zip(istores, mstores))
+        else:
+            # m = [code machine outs, its store, live, spec machine outs, spec rows, frame rows]
+            if not _same(m[5], rows):
+                raise InfraError("the model and the harness disagree about the rows of the frame: %r" % (c,))
+            if not _same(m[0], m[3]):
+                ctx.hit("model:code-machine-differs-from-spec-machine")
+            differs = not _same(m[0], _comparable(c, outs)) or (finals[MAIN] is not None and not _same(m[1], finals[MAIN]))
         if clause is not None:
             seen = ctx.__dict__.setdefault("_c04_seen_clauses", set())
             if _norm(clause) in seen:  # this kind of failure has its minimal replay already
@@ -591,8 +1061,8 @@ def evaluate(ctx, cases):
             c_min = shrink(c, still, budget=1500) if not ctx.replaying else c
             o2, f2 = run_impl(c_min)
             ctx.fail(c_min, oracle(c_min, o2, f2) or clause, impl=o2, model=m[0] if c_min is c else None)
-        elif m[0] != outs or (final_rows is not None and m[1] != final_rows):
-            ctx.disagree(c, {"outs": outs, "rows": final_rows}, {"outs": m[0], "rows": m[1]})
+        elif differs and not any(r.loose or r.unknown_rows for r in order):
+            ctx.disagree(c, {"outs": outs, "rows": finals}, {"outs": m[0], "rows": m[1]})
 
 
 # ----------------------------------------------------------------------------- generators
@@ -610,7 +1080,9 @@ def exhaustive_cases(ctx, depth, nmax, kmax):
     obs_i = 0
     for n in range(nmax + 1):
         rows = [[i] for i in range(n)]
-        for d in range(1, depth + 1):
+        # the deepest level on the frames of up to 2 rows only: with 3 rows it is a third of the thorough tier's time
+        # for histories whose shapes the 2-row frames already have (round 3: keeps the tier within its budget)
+        for d in range(1, (depth if n <= 2 or depth <= 4 else depth - 1) + 1):
             for hist in itertools.product(alpha, repeat=d):
                 ops = []
                 for op in hist:
@@ -663,28 +1135,201 @@ def exhaustive_lazy(ctx, depth, nmax, maxlen, kmax):
             yield {"src": {"kind": "select", "rows": parent, "columns": ["a"]}, "width": 1, "ops": h}
 
 
-ODD_VALUES = [None, "é", 2**70, 1.5, "", -1]
+def _histories(alpha, depth):
+    return [list(h) for d in range(1, depth + 1) for h in itertools.product(alpha, repeat=d)]
 
 
-def random_ops(ctx, n, width, lazy):
+def _with_observers(hist, labels, counter):
+    ops = []
+    for op in hist:
+        if op[0] == "observe":
+            ops.append(["observe", labels[counter[0] % len(labels)]])
+            counter[0] += 1
+        else:
+            ops.append(op)
+    return ops
+
+
+def exhaustive_shapes(ctx, depth, nmax):
+    """Rows that are falsy (no columns; zeros, empty strings, None), and every kind of container `rows=` accepts."""
+    obs = observers()
+    alpha0 = [["fetchone"], ["fetchall"], ["fetchmany", None], ["fetchmany", 1], ["fetchmany", 2], ["observe", 0], ["append", []], ["arraysize", 1]]
+    alpha1 = [op if op[0] != "append" else ["append", [0]] for op in alpha0]
+    lazy_alpha = lazy_alphabet(2)
+    counter = [0]
+    for n in range(nmax + 1):
+        empty = [[] for _ in range(n)]
+        for h in _histories(alpha0, depth):
+            ops = _with_observers(h, obs.width0_labels, counter)
+            yield {"src": {"kind": "rows", "rows": empty}, "width": 0, "ops": ops}
+            yield {"src": {"kind": "relation", "rows": empty}, "width": 0, "ops": ops}
+            if n:
+                yield {"src": {"kind": "dicts", "rows": empty}, "width": 0, "ops": ops}
+        falsy = [[v] for v in ([0, None, 0])[:n]]
+        falsy_s = [[v] for v in (["", "", None])[:n]]
+        for h in _histories(alpha1, depth):
+            ops = _with_observers(h, obs.eager_labels, counter)
+            for cont in ("tuple", "deque", "reiter"):
+                yield {"src": {"kind": "rows", "rows": falsy_s if cont == "deque" else falsy, "container": cont}, "width": 1, "ops": ops}
+        for h in _histories(lazy_alpha, depth):
+            yield {"src": {"kind": "gen", "rows": empty}, "width": 0, "ops": h}
+            yield {"src": {"kind": "select", "rows": [[i] for i in range(n)], "columns": ["z"]}, "width": 1, "ops": h}
+            yield {"src": {"kind": "map", "rows": falsy}, "width": 1, "ops": h}
+            yield {"src": {"kind": "chain", "rows": falsy_s}, "width": 1, "ops": h}
+            yield {"src": {"kind": "filter", "rows": empty, "mask": [True] * n}, "width": 0, "ops": h}
+
+
+def derivations(n):
+    """Every way of taking a frame from a frame of n rows: covering all of it, part of it, none of it."""
+    out = [["slice"], ["slice", 0], ["slice", 0, n], ["slice", 0, n + 1], ["slice", 0, None], ["slice", -n], ["slice", -(n + 1), n + 1],
+           ["head"], ["head", n], ["head", n + 1], ["tail"], ["tail", n], ["tail", n + 5],
+           ["query", "all"], ["distinct"], ["add", MAIN], ["batch", max(n, 1), "first"], ["batch", n + 1, "last"], ["batch", 1, "last"]]
+    if n:
+        out += [["slice", 1], ["slice", 0, n - 1], ["head", n - 1], ["tail", n - 1], ["head", 0], ["query", "none"]]
+    seen, uniq = set(), []
+    for d in out:
+        if repr(d) not in seen:
+            seen.add(repr(d))
+            uniq.append(d)
+    return uniq
+
+
+def exhaustive_frames(ctx, depth, nmax, wide):
+    """A frame, a frame derived from it, and every history of fetches and appends on either side."""
+    sides = [MAIN, "c"]
+    base = [["fetchone"], ["fetchall"], ["append", [9]]] + ([["fetchmany", None], ["fetchmany", 1]] if wide else [])
+    alpha = [(s, op) for s in sides for op in base]
+    hists = _histories(alpha, depth)
+    for n in range(nmax + 1):
+        rows = [[i] for i in range(n)]
+        for prefix in ([[]] + ([[["fetchone"]]] if n else [])):
+            for d in derivations(n):
+                for h in hists:
+                    ops = list(prefix) + [["derive", "c", MAIN] + d] + [op if s == MAIN else ["on", s, op] for s, op in h]
+                    yield {"src": {"kind": "rows", "rows": rows}, "width": 1, "ops": ops}
+    # the same with a parent whose rows are not (yet) a list: the derivation materialises it under a live cursor
+    rows = [[0], [1]]
+    for cont in ("tuple", "deque", "reiter"):
+        for prefix in ([], [["fetchone"]]):
+            for d in (["slice"], ["head"], ["tail", 1], ["add", MAIN], ["distinct"], ["batch", 2, "first"]):
+                for h in hists:
+                    ops = list(prefix) + [["derive", "c", MAIN] + d] + [op if s == MAIN else ["on", s, op] for s, op in h]
+                    yield {"src": {"kind": "rows", "rows": rows, "container": cont}, "width": 1, "ops": ops}
+    # lazy views of a materialised frame, read through their cursor while the parent is fetched from
+    lalpha = [(MAIN, ["fetchone"]), (MAIN, ["fetchall"]), ("c", ["fetchone"]), ("c", ["fetchall"]), ("c", ["fetchmany", None]), ("c", ["fetchmany", 1])]
+    for n in range(nmax + 1):
+        rows = [[i] for i in range(n)]
+        views = [["select", ["a"]], ["select", ["z"]], ["filter", [True] * n], ["filter", [i % 2 == 0 for i in range(n)]], ["take", list(range(n))], ["take", [0]]]
+        for v in views:
+            for h in _histories(lalpha, min(depth, 3)):
+                yield {"src": {"kind": "rows", "rows": rows}, "width": 1,
+                       "ops": [["derive", "c", MAIN] + v] + [op if s == MAIN else ["on", s, op] for s, op in h]}
+
+
+ODD_VALUES = [None, "é", 2**70, 1.5, "", -1, 0, 0.0, False, float("nan"), -0.0, [1], [], {"k": 1}, b""]
+FALSY = [0, "", None, 0.0, False]
+BIG_K = [2 ** 31 - 1, 2 ** 31, 2 ** 63, 2 ** 64 + 1, 10 ** 9]
+
+
+def random_ops(ctx, n, width, lazy, rel=False):
     rng = ctx.rng
     obs = observers()
+    eager_labels = obs.eager_labels if width else obs.width0_labels
+    pure_labels = obs.pure_labels if width else [x for x in obs.pure_labels if x in obs.width0_labels]
     ops = []
     for _ in range(rng.randint(1, 14)):
         r = rng.random()
         if r < 0.2:
             ops.append(["fetchone"])
         elif r < 0.5:
-            ops.append(["fetchmany", rng.choice([None, 0, 1, 2, 3, n, n + 1, max(n - 1, 0), rng.randint(0, 20)])])
+            ops.append(["fetchmany", rng.choice([None, 0, 1, 2, 3, n, n + 1, max(n - 1, 0), rng.randint(0, 20), rng.choice(BIG_K)])])
         elif r < 0.58:
             ops.append(["fetchall"])
         elif r < 0.7:
-            ops.append(["arraysize", rng.choice([0, 1, 2, 5, 99, 100, 101, 1000])])
-        elif r < 0.93:
-            ops.append(["observe", rng.choice(obs.pure_labels if lazy else obs.eager_labels)])
+            ops.append(["arraysize", rng.choice([0, 1, 2, 5, 99, 100, 101, 1000, rng.choice(BIG_K)])])
+        elif r < 0.92:
+            labels = pure_labels if lazy else eager_labels
+            if labels:
+                ops.append(["observe", rng.choice(labels)])
         elif not lazy:
-            ops.append(["append", [rng.randint(-3, 3) for _ in range(width)]])
+            if rng.random() < 0.25:
+                kinds = ["scalar"] + (["unsizable"] if width else []) + (["invalid"] if width and rel else [])
+                ops.append(["append-bad", rng.choice(kinds)])
+            else:
+                ops.append(["append", [rng.randint(-3, 3) for _ in range(width)]])
     return ops or [["fetchone"]]
+
+
+def random_derivation(rng, n, names, width):
+    """A derivation of a frame of about n rows; half of the time one that covers all of it."""
+    r = rng.random()
+    if r < 0.5:
+        d = rng.choice([["slice"], ["slice", 0], ["slice", 0, n], ["slice", 0, n + rng.randint(0, 3)], ["slice", -n - rng.randint(0, 2)],
+                        ["head"], ["head", n + rng.randint(0, 3)], ["tail", n + rng.randint(0, 3)], ["tail"], ["query", "all"], ["distinct"],
+                        ["batch", n + rng.randint(0, 2) or 1, rng.choice(["first", "last"])]])
+    elif r < 0.8:
+        d = rng.choice([["slice", rng.randint(-n - 1, n + 1)], ["slice", rng.randint(-n - 1, n + 1), rng.choice([None, 0, 1, 2, n])],
+                        ["head", rng.randint(0, n + 1)], ["tail", rng.randint(0, n + 1)], ["query", "none"],
+                        ["batch", rng.randint(1, max(n, 1)), rng.choice(["first", "last"])], ["add", rng.choice(names)]])
+    else:
+        cols = NAMES[:width] + ["z"]
+        d = rng.choice([["select", rng.sample(cols, rng.randint(1, len(cols)))],
+                        ["filter", [rng.random() < 0.7 for _ in range(n + rng.randint(-1, 1) if n else 0)]],
+                        ["take", [rng.randint(0, n) for _ in range(rng.randint(0, n + 1))]]])
+    return d
+
+
+def with_frames(ctx, case):
+    """Derive further frames from the materialised frame(s) of `case` and spread fetches / appends over all of them."""
+    rng = ctx.rng
+    w = case["width"]
+    rel = case["src"]["kind"] == "relation"
+    n = len(case["src"]["rows"])
+    regs = {MAIN: {"lazy": False, "frozen": False, "parent": None}}
+    ops = []
+    obs = observers()
+    labels = obs.eager_labels if w else obs.width0_labels
+    pure = [x for x in obs.pure_labels if w or x in obs.width0_labels]
+    for op in case["ops"][: rng.randint(0, 3)]:
+        ops.append(op)
+    for _ in range(rng.randint(2, 12)):
+        live = [name for name, st in regs.items() if not st["frozen"]]
+        eager = [name for name in live if not regs[name]["lazy"]]
+        r = rng.random()
+        if r < 0.22 and len(regs) < 4 and eager:
+            parent = rng.choice(eager)
+            d = random_derivation(rng, n, eager, w)
+            name = "c%d" % len(regs)
+            ops.append(["derive", name, parent] + d)
+            regs[name] = {"lazy": d[0] in DERIVE_LAZY, "frozen": False, "parent": parent}
+            continue
+        reg = rng.choice(live)
+        lazy = regs[reg]["lazy"]
+        if r < 0.45:
+            bop = ["fetchone"]
+        elif r < 0.6:
+            bop = ["fetchmany", rng.choice([None, 0, 1, 2, n, n + 1])]
+        elif r < 0.72:
+            bop = ["fetchall"]
+        elif r < 0.8:
+            pool = pure if lazy else labels
+            if not pool:
+                continue
+            bop = ["observe", rng.choice(pool)]
+        elif r < 0.84:
+            bop = ["arraysize", rng.choice([0, 1, 2, 100])]
+        elif not lazy:
+            if rng.random() < 0.15:
+                bop = ["append-bad", rng.choice(["scalar"] + (["unsizable"] if w else []) + (["invalid"] if w and rel else []))]
+            else:
+                bop = ["append", [rng.randint(-3, 3) for _ in range(w)]]
+            for st in regs.values():
+                if st["lazy"] and st["parent"] == reg:
+                    st["frozen"] = True
+        else:
+            continue
+        ops.append(bop if reg == MAIN and rng.random() < 0.5 else ["on", reg, bop])
+    return dict(case, ops=ops or [["fetchone"]])
 
 
 def random_sizes(rng):
@@ -705,17 +1350,30 @@ def random_sizes(rng):
 
 def random_case(ctx, lazy=False):
     rng = ctx.rng
-    width = rng.choice([1, 2])
+    width = rng.choice([1, 2, 1, 2, 1, 2, 0])
     if not lazy:
         n = rng.choice([0, 1, 2, 3, 5, 8, 13, 40, 99, 100, 101, 150]) if rng.random() < 0.5 else rng.randint(0, 12)
-        rows = [[rng.randint(-3, 3) for _ in range(width)] for _ in range(n)]
+        r = rng.random()
+        # columns are of one type each (what Arrow / max() / sorting need); one frame in five is mostly falsy values
+        pools = [[0, 0, None, 1, -1], ["", "", None, "x", "é"], [0.0, 0.0, None, 1.5, -0.0, float("nan")], [False, False, None, True]]
+        col_pools = [rng.choice(pools) if r < 0.2 else [-3, -2, -1, 0, 1, 2, 3] for _ in range(width)]
         kind = "rows"
         if rng.random() < 0.4:
             kind = rng.choice(["dicts", "tuple-schema", "relation"])
-            if kind == "dicts" and not rows:
+            if kind == "dicts" and not n:
                 kind = "rows"
-        return {"src": {"kind": kind, "rows": rows}, "width": width, "ops": random_ops(ctx, n, width, False)}
-    kind = rng.choice(["gen", "iter", "arrow", "arrow", "arrow", "select", "filter", "take"])
+        if kind == "relation":
+            col_pools = [[-3, -2, -1, 0, 1, 2, 3] for _ in range(width)]  # INTEGER columns
+        rows = [[rng.choice(col_pools[j]) for j in range(width)] for _ in range(n)]
+        src = {"kind": kind, "rows": rows}
+        if rng.random() < 0.35:
+            src["container"] = rng.choice(DICT_CONTAINERS if kind == "dicts" else CONTAINERS)
+        c = {"src": src, "width": width, "ops": random_ops(ctx, n, width, False, kind == "relation")}
+        if rng.random() < 0.35:
+            c = with_frames(ctx, c)
+        return c
+    kinds = ["gen", "iter", "map", "chain", "arrow", "arrow", "arrow", "select", "filter", "take"]
+    kind = rng.choice([k for k in kinds if width or k != "arrow"])
     if kind == "arrow":
         sizes = random_sizes(rng)
         it = itertools.count(rng.randint(-2, 2))
@@ -727,13 +1385,14 @@ def random_case(ctx, lazy=False):
         n = min(total, src.get("size") or total)
     else:
         n0 = rng.choice([0, 1, 2, 3, 5, 8, 13, 99, 100, 101]) if rng.random() < 0.4 else rng.randint(0, 10)
-        vals = (lambda: rng.choice(ODD_VALUES)) if rng.random() < 0.2 else (lambda: rng.randint(-3, 3))
+        vals = (lambda: rng.choice(ODD_VALUES)) if rng.random() < 0.25 else (lambda: rng.randint(-3, 3))
         rows = [[vals() for _ in range(width)] for _ in range(n0)]
         src = {"kind": kind, "rows": rows}
         if kind in ("select", "filter", "take") and rng.random() < 0.3:
             src["parent"] = "gen"
         if kind == "select":
-            src["columns"] = rng.choice([["a"], ["b"], ["b", "a"], ["a", "b"]] if width == 2 else [["a"]])
+            cols = NAMES[:width] + ["z", "y"]
+            src["columns"] = rng.sample(cols, rng.randint(1, len(cols))) if rng.random() < 0.5 else (rng.choice([["a"], ["b"], ["b", "a"], ["a", "b"]] if width == 2 else [["a"]]) if width else ["z"])
         elif kind == "filter":
             p = rng.choice([0.0, 0.2, 0.5, 0.8, 1.0])
             src["mask"] = [rng.random() < p for _ in range(rng.choice([n0, n0, n0, max(n0 - 1, 0), n0 + 2]))]
@@ -765,6 +1424,30 @@ def boundary_cases(ctx):
                     "ops": [["fetchmany", 10000], ["fetchone"], ["fetchmany", 2], ["fetchall"], ["fetchone"]]})
     out.append({"src": {"kind": "arrow", "tables": [[[i] for i in range(7)]], "how": "single", "size": 3}, "width": 1,
                 "ops": [["fetchmany", 2], ["fetchall"], ["fetchone"]]})
+    # the falsy sizes: arraysize 0 is 0 rows (not the default), fetchmany(0) after it, and back
+    for kind in ("rows", "gen"):
+        for w in (0, 1):
+            rows = [[i][:w] for i in range(3)]
+            out.append({"src": {"kind": kind, "rows": rows}, "width": w,
+                        "ops": [["arraysize", 0], ["fetchmany", None], ["fetchmany", 0], ["fetchone"], ["arraysize", 2], ["fetchmany", None], ["fetchmany", None]]})
+    # the thresholds of the renderers the observers go through: display(limit=2) / str (limit 10) switch to
+    # head + tail at 2 * limit + 1 rows; head() / tail() default to 5
+    for n in (4, 5, 6, 20, 21, 22):
+        rows = [[i, -i] for i in range(n)]
+        for kind, cont in (("rows", "list"), ("rows", "tuple"), ("dicts", "list")):
+            out.append({"src": {"kind": kind, "rows": rows, "container": cont}, "width": 2,
+                        "ops": [["fetchone"], ["observe", "str"], ["fetchmany", 2], ["observe", "fn:ascii_table-toptail"], ["fetchone"],
+                                ["observe", "display-all"], ["derive", "h", MAIN, "head"], ["derive", "t", MAIN, "tail"], ["on", "h", ["fetchall"]],
+                                ["on", "t", ["append", [7, 7]]], ["fetchmany", 3], ["on", "h", ["append", [8, 8]]], ["fetchall"], ["fetchone"]]})
+    # TableProfile.from_dataframe reads the frame in batches of 25 000
+    for n in ctx.scale((), (24999, 25000, 25001)):
+        rows = [[i] for i in range(n)]
+        out.append({"src": {"kind": "rows", "rows": rows}, "width": 1,
+                    "ops": [["fetchmany", 3], ["observe", "profile"], ["fetchone"], ["observe", "batches"], ["fetchmany", 25000], ["fetchone"]]})
+    # k and arraysize beyond any row count
+    for k in BIG_K:
+        out.append({"src": {"kind": "rows", "rows": [[1], [2], [3]]}, "width": 1,
+                    "ops": [["fetchmany", 1], ["arraysize", k], ["fetchmany", None], ["fetchmany", k], ["fetchone"]]})
     return out
 
 
@@ -796,12 +1479,31 @@ def run(ctx):
         batch.append(c)
         flush()
     flush(True)
+    n_lazy = total - n_eager
+    sdepth, snmax = ctx.scale((3, 3), (3, 3))
+    for c in exhaustive_shapes(ctx, sdepth, snmax):
+        batch.append(c)
+        flush()
+    flush(True)
+    n_shapes = total - n_eager - n_lazy
+    fdepth, fnmax, fwide = ctx.scale((3, 2, False), (3, 3, False))
+    for c in exhaustive_frames(ctx, fdepth, fnmax, fwide):
+        batch.append(c)
+        flush()
+    flush(True)
+    n_frames = total - n_eager - n_lazy - n_shapes
     ctx.exhaustive = False
-    ctx.note("exhaustive_scope", "materialised: all histories of depth 1..%d over %d operations on frames of 0..%d rows (%d histories); "
+    ctx.note("exhaustive_scope", "materialised: all histories of depth 1..%d (1..4 on 3 rows) over %d operations on frames of 0..%d rows (%d histories); "
              "lazily backed: all cursor-only histories of depth 1..%d over %d operations on from_arrow frames over every list of 1..%d tables "
              "of 0..%d rows in total (empty tables anywhere), every filter mask / take set over 0..%d parent rows, generator and select "
-             "(%d histories); then boundaries and random"
-             % (depth, len(alphabet(kmax)), nmax, n_eager, ldepth, len(lazy_alphabet(lkmax)), lmaxlen, lnmax, lnmax, total - n_eager))
+             "(%d histories); falsy rows and containers: all histories of depth 1..%d on frames of 0..%d rows without columns (rows=, "
+             "dictionaries, RelationSchema, generator, filter, select of unknown names), of rows (0,) ('',) (None,) held in a tuple / deque / "
+             "re-iterable object / map / chain (%d histories); two frames: a frame of 0..%d rows, after no or one fetch, every derivation in "
+             "`derivations(n)` (slice / head / tail / query / distinct / + / to_batches covering all, part, none of it) and every history of "
+             "depth 1..%d of fetches and appends on either frame, and lazy views (select / filter / take) read while the parent is fetched "
+             "from (%d histories); then boundaries and random"
+             % (depth, len(alphabet(kmax)), nmax, n_eager, ldepth, len(lazy_alphabet(lkmax)), lmaxlen, lnmax, lnmax, n_lazy,
+                sdepth, snmax, n_shapes, fnmax, fdepth, n_frames))
     evaluate(ctx, boundary_cases(ctx))
     # every observer once, between two fetches, on a frame with rows left (and with nothing left)
     sweep = []
@@ -812,8 +1514,22 @@ def run(ctx):
     for label in obs.pure_labels:
         sweep.append({"src": {"kind": "arrow", "tables": [[[1, 2]], [], [[3, 4], [5, 6]]], "how": "list"}, "width": 2,
                       "ops": [["observe", label], ["fetchone"], ["observe", label], ["fetchall"], ["observe", label], ["fetchone"]]})
+    # …and on the frames whose rows are falsy or are not held in a list, and on a frame another frame was derived from
+    for label in obs.eager_labels:
+        for cont in ("tuple", "deque", "reiter"):
+            sweep.append({"src": {"kind": "rows", "rows": [[0, ""], [None, ""], [5, "x"]], "container": cont}, "width": 2,
+                          "ops": [["fetchone"], ["observe", label], ["fetchmany", 1], ["observe", label], ["fetchall"], ["observe", label], ["fetchone"]]})
+        sweep.append({"src": {"kind": "rows", "rows": [[1, 2], [3, 4], [5, 6]]}, "width": 2,
+                      "ops": [["fetchone"], ["derive", "c", MAIN, "head"], ["on", "c", ["fetchone"]], ["on", "c", ["observe", label]], ["observe", label],
+                              ["on", "c", ["fetchmany", 1]], ["fetchmany", 1], ["on", "c", ["append", [7, 8]]], ["observe", label], ["fetchall"],
+                              ["on", "c", ["observe", label]]]})
+    for label in obs.width0_labels:
+        for kind in ("rows", "dicts", "relation"):
+            sweep.append({"src": {"kind": kind, "rows": [[], [], []]}, "width": 0,
+                          "ops": [["fetchone"], ["observe", label], ["fetchmany", 1], ["observe", label], ["fetchall"], ["observe", label], ["fetchone"]]})
+    ctx.note("observers_usable_without_columns", len(obs.width0_labels))
     evaluate(ctx, sweep)
-    n_random = ctx.scale(4000, 40000)
+    n_random = ctx.scale(4000, 30000)
     cases = [random_case(ctx, lazy=(i % 2 == 1)) for i in range(n_random)]
     for i in range(0, len(cases), 5000):
         evaluate(ctx, cases[i : i + 5000])
